@@ -51,6 +51,8 @@ func (c *BindingManager) AddBinding(remoteDevice api.DeviceRemoteInterface, data
 		return errors.New("the server feature already has a binding")
 	}
 
+	verifYield("AddBinding.afterCheck")
+
 	clientFeature := remoteDevice.FeatureByAddress(data.ClientAddress)
 	if clientFeature == nil {
 		return fmt.Errorf("client feature '%s' in remote device '%s' not found", data.ClientAddress, *remoteDevice.Address())
